@@ -155,6 +155,11 @@ def e2e_case(ctx, idx):
                 s.send_event(CloseConnection(code=closes[0][1]))  # echo the server's close
             s.eof()
     else:
+        if rng.random() < 0.5:
+            # a client that goes on talking although its handshake was not accepted (or before it reads the answer):
+            # nothing it sends may disturb the answer the application gave, or the server (finding F61)
+            s.send_raw(bytes([0x81, 0x85, 0, 0, 0, 0]) + b"hello")
+            s.rig.run()
         s.eof()
     app = s.app()
     case = {"kind": "e2e", "carrier": carrier, "decision": decision, "closing": closing, "info": {k: v for k, v in info.items() if k != "headers"},
